@@ -40,7 +40,7 @@ ASSUMPTIONS = ['real os.fork() on Linux; sqlite3 3.40 file database in rollback-
                'a hang is never reported as a violation (watchdog => inconclusive) except a provable deadlock: a single-threaded '
                'process blocked in SQLiteProvider.acquire_lock']
 SHARDS = {'quick': 4, 'thorough': 8}
-MIN_EVALS = {'quick': 120, 'thorough': 1500}
+MIN_EVALS = {'quick': 100, 'thorough': 800}     # a fork costs 50-500 ms here depending on machine load; the wall-clock guard may stop early
 CLASS_FLOORS = {'sqlite': 0.3, 'pool:generic': 0.08, 'pool:oracle': 0.08, 'nontrivial': 0.25}
 
 CHILD_FIRST_OPS = [['read'], ['write'], ['getconn'], ['disconnect', 'read'], ['rollback', 'read', 'write'], [['fork', ['read', 'write']]],
@@ -183,9 +183,6 @@ def run(ctx):
 
     def t_pool(case):
         evaluate(ctx, case)
-    ctx.run_test(t_pool, dict(case=pool_case), max_examples=ctx.scale(12, 160), name='pool_histories')
-    if ctx.violation:
-        return
 
     leaf = st.sampled_from(['read', 'write', 'getconn', 'disconnect', 'fail_connect', 'read', 'write'])
     sub_script = st.lists(leaf, min_size=1, max_size=3)
@@ -210,7 +207,16 @@ def run(ctx):
 
     def t_sqlite(case):
         evaluate(ctx, case)
-    ctx.run_test(t_sqlite, dict(case=sqlite_case), max_examples=ctx.scale(12, 180), name='sqlite_histories')
+
+    # alternating rounds, so that a wall-clock stop on a loaded machine leaves both parts represented
+    rounds = ctx.scale(1, 4)
+    for r in range(rounds):
+        ctx.run_test(t_pool, dict(case=pool_case), max_examples=ctx.scale(12, 30), name='pool_histories_%d' % r)
+        if ctx.violation or ctx.extra.get('stopped_by_wall_clock'):
+            return
+        ctx.run_test(t_sqlite, dict(case=sqlite_case), max_examples=ctx.scale(12, 40), name='sqlite_histories_%d' % r)
+        if ctx.violation or ctx.extra.get('stopped_by_wall_clock'):
+            return
 
 
 def replay(case):
